@@ -121,6 +121,13 @@ def accessor_msg(res, obs):
     return None
 
 
+def quiet(fn):
+    """Runs fn with stdout swallowed (graphs created with verbose > 0 print their progress)."""
+    import contextlib, io
+    with contextlib.redirect_stdout(io.StringIO()):
+        return fn()
+
+
 def run(ctx):
     import torch
     import translators
@@ -141,7 +148,10 @@ def run(ctx):
             layers, dist = G.ref_bfs(gd, starts)
             st = [len(l) for l in layers]
             cfgd = G.gen_config(rng, gd)
-            graph = G.make_graph(gd, cfgd)
+            if rng.random() < 0.25:
+                cfgd["verbose"] = rng.choice([1, 2, 3])          # logging must not change what a search does (nor how often it consults the callback)
+                ctx.count("verbose_graphs")
+            graph = quiet(lambda: G.make_graph(gd, cfgd))
             kw, stopk = gen_limits(rng, st)
             hash_layer = None
             if stopk is not None and stopk[0] == "hash":
@@ -151,7 +161,7 @@ def run(ctx):
                 stopk = ("hash", h)
                 if hash_layer == 0:
                     hash_layer = None     # the callback never sees layer 0
-            obs, res_obj = bfsrun.observe(graph, starts, kw, stopk)
+            obs, res_obj = quiet(lambda: bfsrun.observe(graph, starts, kw, stopk))
             case = {"graph": gd, "config": cfgd, "starts": starts, "bfs": kw, "stop": list(stopk) if stopk else None, "hash_layer": hash_layer}
             amsg = accessor_msg(res_obj, obs)
             if amsg:
@@ -170,14 +180,14 @@ def run(ctx):
             if msg:
                 persists = True
                 for s in (11, 222, 3333):
-                    g2 = G.make_graph(gd, dict(cfgd, random_seed=s))
+                    g2 = quiet(lambda: G.make_graph(gd, dict(cfgd, random_seed=s)))
                     sk = stopk
                     if stopk is not None and stopk[0] == "hash" and hash_layer is not None:
                         s0 = sorted(layers[hash_layer])[0]
                         sk = ("hash", int(g2.hasher.make_hashes(g2.encode_states(torch.tensor([list(s0)], dtype=torch.int64)))[0]))
                     elif stopk is not None and stopk[0] == "hash":
                         sk = ("never", 0)
-                    o2, _ = bfsrun.observe(g2, starts, kw, sk)
+                    o2, _ = quiet(lambda: bfsrun.observe(g2, starts, kw, sk))
                     if oracle_prefix(g2, gd, starts, kw, sk, o2, hash_layer) is None:
                         persists = False
                         break
@@ -208,7 +218,7 @@ def replay(ctx, obj):
         layers, dist = G.ref_bfs(gd, starts)
         msg = None
         for s in ((cfgd.get("random_seed"),) if case.get("seed_specific") else (cfgd.get("random_seed"), 11, 222)):
-            g2 = G.make_graph(gd, dict(cfgd, random_seed=s))
+            g2 = quiet(lambda: G.make_graph(gd, dict(cfgd, random_seed=s)))
             sk = stopk
             hl = case.get("hash_layer")
             if stopk is not None and stopk[0] == "hash":
@@ -217,7 +227,7 @@ def replay(ctx, obj):
                     sk = ("hash", int(g2.hasher.make_hashes(g2.encode_states(torch.tensor([list(s0)], dtype=torch.int64)))[0]))
                 else:
                     sk = ("never", 0)
-            o2, _ = bfsrun.observe(g2, starts, kw, sk)
+            o2, _ = quiet(lambda: bfsrun.observe(g2, starts, kw, sk))
             msg = oracle_prefix(g2, gd, starts, kw, sk, o2, hl)
             if msg is None:
                 return None
